@@ -141,6 +141,7 @@ type vfE2H struct {
 	epoch     int
 	depth     int
 	last      []string
+	relax     bool         // a steered schedule holds an operation between two critical sections: heap/map oracle off
 	micro     bool         // a micro-step schedule ran in this episode: the atomic invariant is not expected
 	guardGate atomic.Value // func(): called at proto.pump.afterGuard
 }
@@ -546,7 +547,9 @@ func (h *vfE2H) inflightOf(rc *Channel) []vfE2IF {
 	// heap oracle: every element knows its index, the heap holds exactly the map's objects,
 	// parents are not later than children
 	pq := rc.inFlightPQ
-	if len(pq) != len(rc.inFlightMessages) {
+	if h.relax {
+		pq = nil
+	} else if len(pq) != len(rc.inFlightMessages) {
 		h.fail("heap", "in-flight heap has %d elements, map has %d", len(pq), len(rc.inFlightMessages))
 	}
 	for i, m := range pq {
@@ -594,7 +597,9 @@ func (h *vfE2H) clientsOf(rc *Channel) []*clientV2 {
 	var out []*clientV2
 	rc.RLock()
 	for _, c := range rc.clients {
-		out = append(out, c.(*clientV2))
+		if cl, ok := c.(*clientV2); ok {
+			out = append(out, cl)
+		}
 	}
 	rc.RUnlock()
 	sort.Slice(out, func(i, j int) bool { return h.byCID[out[i].ID] < h.byCID[out[j].ID] })
@@ -775,9 +780,13 @@ func (h *vfE2H) quiescent() (bool, string) {
 			ready := false
 			sampler := false
 			rc.RLock()
-			ncl := len(rc.clients)
+			ncl := 0
 			for _, c := range rc.clients {
-				cl := c.(*clientV2)
+				cl, isReal := c.(*clientV2)
+				if !isReal {
+					continue
+				}
+				ncl++
 				if cl.IsReadyForMessages() {
 					ready = true
 				}
